@@ -47,10 +47,10 @@ MORE = {
          "resumes at i + 1. Round 2: the lock is recorded on every successful return of insert; the lock query tests every visited node; the iterator descends only through make_owned.", "condition-under-which-reached analysis"),
  "C16": ("Also decided: receive names are cut at the first '.', durations at the first non-digit. Round 2: documented grammar of the name validators; SerialCtx and element-helper pairs; input-driven ranges of fixed-size buffers stay in bounds; a writer arm without the tag of its siblings is a mismatch.", "required-callee rule"),
  "C17": ("Also decided: decoders never discard the sign of a decoded integer; the parsed prefix returned by a text segment is inspected; a "
-         "fixed-size destination must be filled by what was actually read. Round 2: the filled test accepts equivalent forms; input iterators are exhausted.", "def-use rules"),
+         "fixed-size destination must be filled by what was actually read. Round 2: the filled test accepts equivalent forms; input iterators are exhausted; no unchecked arithmetic on decoded sizes.", "def-use rules"),
  "C18": ("Also decided: every field of the verifier-supplied verification material is read and used; lookups of revealed attributes are "
          "enforced; narrowed-length, equality-polarity and refusing-comparison-floor sweeps. Round 2: verifier transcript entries unconditional; whole-collection equalities and unconditional checks are counted per module.", "coverage of verifier inputs"),
  "C19": ("Also decided: the duplicate search is complete (no partitioning of the sorted hashes); narrowed-length, equality-polarity and "
-         "refusing-comparison-floor sweeps. Round 2: verifier transcript entries unconditional; unconditional-check counts.", "idiom table for the duplicate scan"),
- "C20": ("Round 2: derivation paths contain every index parameter and differ by a literal; the index packing is proved injective bit by bit.", "round-2 rules"),
+         "refusing-comparison-floor sweeps. Round 2: verifier transcript entries unconditional; unconditional-check counts; signature aggregation is point addition on every path.", "idiom table for the duplicate scan"),
+ "C20": ("Round 2: derivation paths contain every index parameter and differ by a literal; the index packing is proved injective bit by bit; sharing polynomial of exact degree; no saturating arithmetic in the multiexp recoding (multiexp = sum itself is not decided).", "round-2 rules"),
 }
